@@ -18,6 +18,8 @@ def run(ctx):
     engine2_common.audit_transfer2(ctx, engine2_common.THEOREMS_SIMT2_C06)
     engine_common.run_engine(ctx, ["C06:"], n_quick=3000, n_thorough=60000)
     ms_common.run_ms(ctx, 'hold')
+    # requests with a millisecond WAIT and a second-unit expiry that are granted from the queue: the hold keeps its own unit
+    ms_common.run_ms(ctx, 'wait-c06')
     ms_common.run_clockjump(ctx, ["C06:"])
     ms_common.run_ms_update(ctx, ["C06:"])
     ctx.assumptions.append("server time = the virtual clock; one sweep per elapsed second; millisecond expiries and follower-side deferral are not modelled here")
